@@ -8,7 +8,7 @@ cell.go sharedStringsLoader, rows.go getFromStringItem / Rows, file.go Close /
 writeToZip) defined over the regenerated facts `Facts.C12`; `facts_ok` pins
 the facts the proofs were written for.
 -/
-import XlModel.Lemmas.Store4
+import XlModel.Lemmas.Store5
 
 namespace XlModel.Props.C12
 open XlModel XlModel.Store
@@ -123,6 +123,32 @@ theorem readZip_error_leaves_files :
        ⟨"xl/worksheets/sheet2.xml", 100, false, .none, ⟨"b", 100⟩⟩] = .sizeErr s ∧ s.disk.length = 1 := by
   refine ⟨_, rfl, ?_⟩
   decide
+
+/-! ## "The observable content of an opened workbook is the same for every admissible UnzipXMLSizeLimit/UnzipSizeLimit setting" -/
+
+/-- `store_refines_map`, open part: after every successful open — any package (duplicate names,
+directory entries, CRC failures), any limit pair — what `readBytes` delivers for each part name is
+exactly the plain map of the package entries (later entry wins), which does not mention a limit:
+whether a part sits in memory, in a temp file, or in both is invisible to readers. -/
+theorem open_refines_map (l : Limits) (es : List Entry) (st : St) (h : openReader l es = .ok st) (n : String) :
+    absAt st n = AMap.load (Spec.parts es []) n := by
+  unfold openReader at h
+  cases hc : checkOptions l with
+  | none => simp [hc] at h
+  | some l' =>
+    simp only [hc] at h
+    cases hr : readZip l' {} 0 0 es with
+    | ok s w =>
+      rw [hr] at h; injection h with h; subst h
+      exact readZip_agree l' es {} 0 0 [] Inv0.init Agree.init s w hr n
+    | sizeErr s => rw [hr] at h; simp at h
+    | readErr s => rw [hr] at h; simp at h
+    | panic s => rw [hr] at h; cases h
+
+/-- two opens of the same package under different admissible limits deliver the same bytes for every part -/
+theorem open_independent_of_limits (l1 l2 : Limits) (es : List Entry) (s1 s2 : St)
+    (h1 : openReader l1 es = .ok s1) (h2 : openReader l2 es = .ok s2) (n : String) : absAt s1 n = absAt s2 n := by
+  rw [open_refines_map l1 es s1 h1, open_refines_map l2 es s2 h2]
 
 /-! ## non-vacuity -/
 
